@@ -26,8 +26,12 @@ use revm::interpreter::{
 };
 use revm::primitives::{
     eof::{EofBody, TypesSection},
-    keccak256, spec_to_generic, Address, BlobExcessGasAndPrice, Bytecode, Bytes, Env, Log, SpecId, B256, U256,
+    keccak256, spec_to_generic, AccessListItem, AccountInfo, Address, BlobExcessGasAndPrice, Bytecode, Bytes, Env, Log,
+    SpecId, TxKind, B256, U256,
 };
+use revm::db::{CacheDB, EmptyDB};
+use revm::interpreter::{CallInputs, CreateInputs, EOFCreateInputs};
+use revm::{inspector_handle_register, Evm, EvmContext, Inspector};
 use std::sync::Arc;
 use std::cell::{Cell, RefCell};
 use std::panic::AssertUnwindSafe;
@@ -2549,6 +2553,727 @@ fn gen_eof_valid(r: &mut Rng) -> Params {
     p
 }
 
+// ---------------------------------------------------------------- frames of real transactions
+/// minimal JSON (the state-test fixtures: objects, arrays, strings, numbers, null / booleans)
+#[derive(Debug)]
+enum J {
+    Null,
+    Bool(bool),
+    Num(f64),
+    Str(String),
+    Arr(Vec<J>),
+    Obj(Vec<(String, J)>),
+}
+impl J {
+    fn get(&self, k: &str) -> Option<&J> {
+        match self {
+            J::Obj(v) => v.iter().find(|(a, _)| a == k).map(|(_, b)| b),
+            _ => None,
+        }
+    }
+    fn str(&self) -> Option<&str> {
+        match self {
+            J::Str(s) => Some(s),
+            _ => None,
+        }
+    }
+    fn arr(&self) -> Option<&[J]> {
+        match self {
+            J::Arr(v) => Some(v),
+            _ => None,
+        }
+    }
+    fn obj(&self) -> Option<&[(String, J)]> {
+        match self {
+            J::Obj(v) => Some(v),
+            _ => None,
+        }
+    }
+    fn idx(&self) -> Option<usize> {
+        match self {
+            J::Num(x) => Some(*x as usize),
+            _ => None,
+        }
+    }
+}
+struct JP<'a> {
+    b: &'a [u8],
+    i: usize,
+}
+impl<'a> JP<'a> {
+    fn ws(&mut self) {
+        while self.i < self.b.len() && matches!(self.b[self.i], b' ' | b'\n' | b'\r' | b'\t') {
+            self.i += 1;
+        }
+    }
+    fn lit(&mut self, s: &str) -> Option<()> {
+        if self.b[self.i..].starts_with(s.as_bytes()) {
+            self.i += s.len();
+            Some(())
+        } else {
+            None
+        }
+    }
+    fn string(&mut self) -> Option<String> {
+        if *self.b.get(self.i)? != b'"' {
+            return None;
+        }
+        self.i += 1;
+        let mut out: Vec<u8> = vec![];
+        loop {
+            let c = *self.b.get(self.i)?;
+            self.i += 1;
+            match c {
+                b'"' => break,
+                b'\\' => {
+                    let e = *self.b.get(self.i)?;
+                    self.i += 1;
+                    match e {
+                        b'n' => out.push(b'\n'),
+                        b't' => out.push(b'\t'),
+                        b'r' => out.push(b'\r'),
+                        b'b' => out.push(8),
+                        b'f' => out.push(12),
+                        b'u' => {
+                            // not needed for the fields read here
+                            self.i += 4;
+                            out.push(b'?');
+                        }
+                        x => out.push(x),
+                    }
+                }
+                x => out.push(x),
+            }
+        }
+        Some(String::from_utf8_lossy(&out).into_owned())
+    }
+    fn value(&mut self) -> Option<J> {
+        self.ws();
+        match *self.b.get(self.i)? {
+            b'{' => {
+                self.i += 1;
+                let mut v = vec![];
+                self.ws();
+                if *self.b.get(self.i)? == b'}' {
+                    self.i += 1;
+                    return Some(J::Obj(v));
+                }
+                loop {
+                    self.ws();
+                    let k = self.string()?;
+                    self.ws();
+                    if *self.b.get(self.i)? != b':' {
+                        return None;
+                    }
+                    self.i += 1;
+                    let x = self.value()?;
+                    v.push((k, x));
+                    self.ws();
+                    match *self.b.get(self.i)? {
+                        b',' => self.i += 1,
+                        b'}' => {
+                            self.i += 1;
+                            return Some(J::Obj(v));
+                        }
+                        _ => return None,
+                    }
+                }
+            }
+            b'[' => {
+                self.i += 1;
+                let mut v = vec![];
+                self.ws();
+                if *self.b.get(self.i)? == b']' {
+                    self.i += 1;
+                    return Some(J::Arr(v));
+                }
+                loop {
+                    let x = self.value()?;
+                    v.push(x);
+                    self.ws();
+                    match *self.b.get(self.i)? {
+                        b',' => self.i += 1,
+                        b']' => {
+                            self.i += 1;
+                            return Some(J::Arr(v));
+                        }
+                        _ => return None,
+                    }
+                }
+            }
+            b'"' => self.string().map(J::Str),
+            b'n' => self.lit("null").map(|_| J::Null),
+            b't' => self.lit("true").map(|_| J::Bool(true)),
+            b'f' => self.lit("false").map(|_| J::Bool(false)),
+            _ => {
+                let st = self.i;
+                while self.i < self.b.len() && matches!(self.b[self.i], b'0'..=b'9' | b'-' | b'+' | b'.' | b'e' | b'E') {
+                    self.i += 1;
+                }
+                std::str::from_utf8(&self.b[st..self.i]).ok()?.parse::<f64>().ok().map(J::Num)
+            }
+        }
+    }
+}
+fn parse_json(b: &[u8]) -> Option<J> {
+    let mut p = JP { b, i: 0 };
+    p.value()
+}
+
+fn jhex_word(j: Option<&J>) -> Option<U256> {
+    let s = j?.str()?;
+    let s = s.strip_prefix("0x").unwrap_or(s);
+    if s.is_empty() {
+        return Some(U256::ZERO);
+    }
+    U256::from_str_radix(s, 16).ok()
+}
+fn jhex_bytes(j: Option<&J>) -> Option<Vec<u8>> {
+    let s = j?.str()?;
+    let s = s.strip_prefix("0x").unwrap_or(s);
+    if s.len() % 2 != 0 {
+        return None;
+    }
+    (0..s.len() / 2).map(|i| u8::from_str_radix(&s[2 * i..2 * i + 2], 16).ok()).collect()
+}
+fn jaddr(j: Option<&J>) -> Option<Address> {
+    let b = jhex_bytes(j)?;
+    if b.len() != 20 {
+        return None;
+    }
+    Some(Address::from_slice(&b))
+}
+
+fn spec_by_name(n: &str) -> Option<SpecId> {
+    Some(match n {
+        "Frontier" => SpecId::FRONTIER,
+        "Homestead" => SpecId::HOMESTEAD,
+        "EIP150" | "Tangerine" => SpecId::TANGERINE,
+        "EIP158" | "Spurious" => SpecId::SPURIOUS_DRAGON,
+        "Byzantium" => SpecId::BYZANTIUM,
+        "ConstantinopleFix" | "Petersburg" => SpecId::PETERSBURG,
+        "Istanbul" => SpecId::ISTANBUL,
+        "Berlin" => SpecId::BERLIN,
+        "London" => SpecId::LONDON,
+        "Paris" | "Merge" => SpecId::MERGE,
+        "Shanghai" => SpecId::SHANGHAI,
+        "Cancun" => SpecId::CANCUN,
+        "Prague" => SpecId::PRAGUE,
+        "Osaka" => SpecId::OSAKA,
+        _ => return None,
+    })
+}
+
+/// one frame of a real transaction: how the interpreter was set up, what the host answered to every instruction,
+/// what came back from every child frame, and how the frame ended
+pub struct RecFrame {
+    pub params: Params,
+    pub steps: Vec<Resp>,
+    pub children: Vec<Child>,
+    /// (result, gas remaining) of a call frame as handed to the caller
+    pub end: Option<(InstructionResult, u64)>,
+    pub is_create: bool,
+}
+
+type RealDb = CacheDB<EmptyDB>;
+
+/// the recording inspector
+#[derive(Default)]
+pub struct Rec {
+    spec: u8,
+    open: Vec<RecFrame>,
+    /// one mark per call / create the inspector was told about: did it become a frame?
+    marks: Vec<bool>,
+    pub done: Vec<RecFrame>,
+}
+impl Rec {
+    fn host_answer(interp: &Interpreter, ctx: &mut EvmContext<RealDb>) -> Resp {
+        let op = interp.current_opcode();
+        let pk = |i: usize| interp.stack.peek(i).ok();
+        let me = interp.contract.target_address;
+        let acct = |ctx: &mut EvmContext<RealDb>, a: U256| -> Resp {
+            let mut c = ctx.inner.clone();
+            match c.load_account_delegated(addr_of(a)) {
+                Ok(l) => Resp {
+                    ok: true,
+                    cold: l.load.state_load.is_cold,
+                    flags: if l.is_empty { 8 } else { 0 },
+                    deleg: l.load.is_delegate_account_cold,
+                    ..Default::default()
+                },
+                Err(_) => Resp::default(),
+            }
+        };
+        match op {
+            0x31 | 0x47 => {
+                let a = if op == 0x47 { Some(me) } else { pk(0).map(addr_of) };
+                let Some(a) = a else { return Resp::default() };
+                let mut c = ctx.inner.clone();
+                match c.balance(a) {
+                    Ok(l) => Resp { ok: true, word: l.data, cold: l.is_cold, ..Default::default() },
+                    Err(_) => Resp::default(),
+                }
+            }
+            0x3b | 0x3c => {
+                let Some(a) = pk(0) else { return Resp::default() };
+                let mut c = ctx.inner.clone();
+                match c.code(addr_of(a)) {
+                    Ok(l) => Resp { ok: true, bytes: l.data.to_vec(), cold: l.is_cold, ..Default::default() },
+                    Err(_) => Resp::default(),
+                }
+            }
+            0x3f => {
+                let Some(a) = pk(0) else { return Resp::default() };
+                let mut c = ctx.inner.clone();
+                match c.code_hash(addr_of(a)) {
+                    Ok(l) => Resp { ok: true, word: U256::from_be_bytes(l.data.0), cold: l.is_cold, ..Default::default() },
+                    Err(_) => Resp::default(),
+                }
+            }
+            0x40 => {
+                // `Context::block_hash`
+                let Some(n) = pk(0) else { return Resp::default() };
+                let sat = |w: U256| if w > U256::from(u64::MAX) { u64::MAX } else { w.as_limbs()[0] };
+                let (n, cur) = (sat(n), sat(ctx.inner.env.block.number));
+                let word = match cur.checked_sub(n) {
+                    None | Some(0) => U256::ZERO,
+                    Some(d) if d <= revm::primitives::BLOCK_HASH_HISTORY => {
+                        let mut c = ctx.inner.clone();
+                        match c.block_hash(n) {
+                            Ok(h) => U256::from_be_bytes(h.0),
+                            Err(_) => return Resp::default(),
+                        }
+                    }
+                    _ => U256::ZERO,
+                };
+                Resp { ok: true, word, ..Default::default() }
+            }
+            0x54 => {
+                let Some(k) = pk(0) else { return Resp::default() };
+                let mut c = ctx.inner.clone();
+                match c.sload(me, k) {
+                    Ok(l) => Resp { ok: true, word: l.data, cold: l.is_cold, ..Default::default() },
+                    Err(_) => Resp::default(),
+                }
+            }
+            0x55 => {
+                let (Some(k), Some(v)) = (pk(0), pk(1)) else { return Resp::default() };
+                let mut c = ctx.inner.clone();
+                match c.sstore(me, k, v) {
+                    Ok(l) => Resp {
+                        ok: true,
+                        orig: l.data.original_value,
+                        pres: l.data.present_value,
+                        new: l.data.new_value,
+                        cold: l.is_cold,
+                        ..Default::default()
+                    },
+                    Err(_) => Resp::default(),
+                }
+            }
+            0x5c => {
+                let Some(k) = pk(0) else { return Resp::default() };
+                let mut c = ctx.inner.clone();
+                Resp { ok: true, word: c.tload(me, k), ..Default::default() }
+            }
+            0xff => {
+                let Some(t) = pk(0) else { return Resp::default() };
+                let mut c = ctx.inner.clone();
+                match c.selfdestruct(me, addr_of(t)) {
+                    Ok(l) => Resp {
+                        ok: true,
+                        cold: l.is_cold,
+                        flags: (l.data.had_value as u8) | (l.data.target_exists as u8) << 1 | (l.data.previously_destroyed as u8) << 2,
+                        ..Default::default()
+                    },
+                    Err(_) => Resp::default(),
+                }
+            }
+            0xf1 | 0xf2 | 0xf4 | 0xfa => match pk(1) {
+                Some(a) => acct(ctx, a),
+                None => Resp::default(),
+            },
+            0xf8 | 0xf9 | 0xfb => match pk(0) {
+                Some(a) => acct(ctx, a),
+                None => Resp::default(),
+            },
+            _ => Resp::default(),
+        }
+    }
+    fn child_of(r: &InterpreterResult, address: Option<Address>) -> Child {
+        Child {
+            result: r.result,
+            gas: r.gas.remaining(),
+            refunded: r.gas.refunded(),
+            output: r.output.to_vec(),
+            address: address.map(|a| U256::from_be_slice(a.as_slice())),
+        }
+    }
+    /// a call / create came back: close its frame (if it became one), hand the result to the caller's record
+    fn came_back(&mut self, r: &InterpreterResult, address: Option<Address>) {
+        if self.marks.pop() == Some(true) {
+            if let Some(mut f) = self.open.pop() {
+                f.end = Some((r.result, r.gas.remaining()));
+                self.done.push(f);
+            }
+        }
+        if let Some(parent) = self.open.last_mut() {
+            parent.children.push(Rec::child_of(r, address));
+        }
+    }
+}
+impl Inspector<RealDb> for Rec {
+    fn initialize_interp(&mut self, interp: &mut Interpreter, ctx: &mut EvmContext<RealDb>) {
+        if let Some(m) = self.marks.last_mut() {
+            *m = true;
+        }
+        let w = |a: Address| U256::from_be_slice(a.as_slice());
+        let env = &ctx.inner.env;
+        let (eof, code) = match &interp.contract.bytecode {
+            Bytecode::Eof(e) => (
+                Some(EofParams {
+                    sections: e.body.code_section.iter().map(|c| c.to_vec()).collect(),
+                    types: e.body.types_section.iter().map(|t| (t.inputs, t.outputs, t.max_stack_size)).collect(),
+                    data: e.body.data_section.to_vec(),
+                    data_size: e.header.data_size,
+                    containers: e.body.container_section.iter().map(|c| c.to_vec()).collect(),
+                    init: interp.is_eof_init,
+                }),
+                vec![],
+            ),
+            b => (None, b.original_byte_slice().to_vec()),
+        };
+        let params = Params {
+            eof,
+            spec: self.spec,
+            gas: interp.gas.limit(),
+            is_static: interp.is_static,
+            code,
+            input: interp.contract.input.to_vec(),
+            target: w(interp.contract.target_address),
+            caller: w(interp.contract.caller),
+            value: interp.contract.call_value,
+            env: EnvTok {
+                chain: env.cfg.chain_id,
+                coinbase: w(env.block.coinbase),
+                timestamp: env.block.timestamp,
+                number: env.block.number,
+                difficulty: env.block.difficulty,
+                prevrandao: env.block.prevrandao.map(|h| U256::from_be_bytes(h.0)),
+                gas_limit: env.block.gas_limit,
+                basefee: env.block.basefee,
+                gas_price: env.tx.gas_price,
+                prio: env.tx.gas_priority_fee,
+                origin: w(env.tx.caller),
+                blob_hashes: env.tx.blob_hashes.iter().map(|h| U256::from_be_bytes(h.0)).collect(),
+                blob_gasprice: env.block.blob_excess_gas_and_price.as_ref().map(|b| b.blob_gasprice),
+                limit: env.cfg.limit_contract_code_size.map(|x| x as u64),
+            },
+        };
+        self.open.push(RecFrame { params, steps: vec![], children: vec![], end: None, is_create: false });
+    }
+    fn step(&mut self, interp: &mut Interpreter, ctx: &mut EvmContext<RealDb>) {
+        let r = Rec::host_answer(interp, ctx);
+        if let Some(f) = self.open.last_mut() {
+            f.steps.push(r);
+        }
+    }
+    fn call(&mut self, _ctx: &mut EvmContext<RealDb>, _inputs: &mut CallInputs) -> Option<CallOutcome> {
+        self.marks.push(false);
+        None
+    }
+    fn call_end(&mut self, _ctx: &mut EvmContext<RealDb>, _inputs: &CallInputs, outcome: CallOutcome) -> CallOutcome {
+        self.came_back(&outcome.result, None);
+        outcome
+    }
+    fn create(&mut self, _ctx: &mut EvmContext<RealDb>, _inputs: &mut CreateInputs) -> Option<CreateOutcome> {
+        self.marks.push(false);
+        None
+    }
+    fn create_end(&mut self, _ctx: &mut EvmContext<RealDb>, _inputs: &CreateInputs, outcome: CreateOutcome) -> CreateOutcome {
+        if self.marks.last() == Some(&true) {
+            if let Some(f) = self.open.last_mut() {
+                f.is_create = true;
+            }
+        }
+        self.came_back(&outcome.result, outcome.address);
+        outcome
+    }
+    fn eofcreate(&mut self, _ctx: &mut EvmContext<RealDb>, _inputs: &mut EOFCreateInputs) -> Option<CreateOutcome> {
+        self.marks.push(false);
+        None
+    }
+    fn eofcreate_end(
+        &mut self,
+        _ctx: &mut EvmContext<RealDb>,
+        _inputs: &EOFCreateInputs,
+        outcome: CreateOutcome,
+    ) -> CreateOutcome {
+        if self.marks.last() == Some(&true) {
+            if let Some(f) = self.open.last_mut() {
+                f.is_create = true;
+            }
+        }
+        self.came_back(&outcome.result, outcome.address);
+        outcome
+    }
+}
+
+/// run one transaction of a state-test fixture on the full EVM with the recording inspector
+fn record_tx(unit: &J, spec: SpecId, post: &J) -> Option<Vec<RecFrame>> {
+    let mut db = RealDb::new(EmptyDB::default());
+    for (a, acc) in unit.get("pre")?.obj()? {
+        let addr = jaddr(Some(&J::Str(a.clone())))?;
+        let code = jhex_bytes(acc.get("code")).unwrap_or_default();
+        let bytecode = if code.is_empty() {
+            Bytecode::default()
+        } else {
+            match Bytecode::new_raw_checked(Bytes::from(code.clone())) {
+                Ok(b) => b,
+                Err(_) => Bytecode::new_legacy(Bytes::from(code.clone())),
+            }
+        };
+        let info = AccountInfo {
+            balance: jhex_word(acc.get("balance"))?,
+            nonce: jhex_word(acc.get("nonce"))?.as_limbs()[0],
+            code_hash: keccak256(&code),
+            code: Some(bytecode),
+        };
+        db.insert_account_info(addr, info);
+        if let Some(st) = acc.get("storage").and_then(|s| s.obj()) {
+            for (k, v) in st {
+                let k = jhex_word(Some(&J::Str(k.clone())))?;
+                let _ = db.insert_account_storage(addr, k, jhex_word(Some(v))?);
+            }
+        }
+    }
+    let e = unit.get("env")?;
+    let tx = unit.get("transaction")?;
+    if tx.get("authorizationList").and_then(|a| a.arr()).map(|a| !a.is_empty()).unwrap_or(false) {
+        return None;
+    }
+    let idx = post.get("indexes")?;
+    let (di, gi, vi) = (idx.get("data")?.idx()?, idx.get("gas")?.idx()?, idx.get("value")?.idx()?);
+    let mut env = Env::default();
+    env.cfg.chain_id = 1;
+    env.block.number = jhex_word(e.get("currentNumber"))?;
+    env.block.coinbase = jaddr(e.get("currentCoinbase"))?;
+    env.block.timestamp = jhex_word(e.get("currentTimestamp"))?;
+    env.block.gas_limit = jhex_word(e.get("currentGasLimit"))?;
+    env.block.basefee = jhex_word(e.get("currentBaseFee")).unwrap_or_default();
+    env.block.difficulty = jhex_word(e.get("currentDifficulty")).unwrap_or_default();
+    env.block.prevrandao = jhex_word(e.get("currentRandom")).map(B256::from);
+    if spec.is_enabled_in(SpecId::MERGE) && env.block.prevrandao.is_none() {
+        env.block.prevrandao = Some(B256::default());
+    }
+    if let Some(x) = jhex_word(e.get("currentExcessBlobGas")) {
+        env.block.set_blob_excess_gas_and_price(x.as_limbs()[0], spec.is_enabled_in(SpecId::PRAGUE));
+    }
+    env.tx.caller = jaddr(tx.get("sender"))?;
+    env.tx.gas_price = jhex_word(tx.get("gasPrice")).or(jhex_word(tx.get("maxFeePerGas"))).unwrap_or_default();
+    env.tx.gas_priority_fee = jhex_word(tx.get("maxPriorityFeePerGas"));
+    env.tx.blob_hashes = match tx.get("blobVersionedHashes").and_then(|a| a.arr()) {
+        Some(a) => a.iter().map(|h| jhex_word(Some(h)).map(B256::from)).collect::<Option<Vec<_>>>()?,
+        None => vec![],
+    };
+    env.tx.max_fee_per_blob_gas = jhex_word(tx.get("maxFeePerBlobGas"));
+    let gl = jhex_word(tx.get("gasLimit")?.arr()?.get(gi))?;
+    env.tx.gas_limit = if gl > U256::from(u64::MAX) { u64::MAX } else { gl.as_limbs()[0] };
+    env.tx.data = Bytes::from(jhex_bytes(tx.get("data")?.arr()?.get(di))?);
+    env.tx.value = jhex_word(tx.get("value")?.arr()?.get(vi))?;
+    env.tx.nonce = None;
+    if let Some(al) = tx.get("accessLists").and_then(|a| a.arr()).and_then(|a| a.get(di)).and_then(|a| a.arr()) {
+        for it in al {
+            let address = jaddr(it.get("address"))?;
+            let storage_keys = it
+                .get("storageKeys")?
+                .arr()?
+                .iter()
+                .map(|k| jhex_word(Some(k)).map(B256::from))
+                .collect::<Option<Vec<_>>>()?;
+            env.tx.access_list.push(AccessListItem { address, storage_keys });
+        }
+    }
+    env.tx.transact_to = match tx.get("to").and_then(|t| t.str()) {
+        Some(s) if !s.is_empty() => TxKind::Call(jaddr(tx.get("to"))?),
+        _ => TxKind::Create,
+    };
+    let rec = Rec { spec: spec as u8, ..Default::default() };
+    let r = std::panic::catch_unwind(AssertUnwindSafe(move || {
+        let mut evm = Evm::builder()
+            .with_db(db)
+            .with_external_context(rec)
+            .with_spec_id(spec)
+            .modify_env(|x| **x = env)
+            .append_handler_register(inspector_handle_register)
+            .build();
+        let ok = evm.transact().is_ok();
+        let rec = std::mem::take(&mut evm.context.external);
+        (ok, rec)
+    }));
+    match r {
+        Ok((true, rec)) => Some(rec.done),
+        _ => None,
+    }
+}
+
+fn list_json(dir: &std::path::Path, acc: &mut Vec<std::path::PathBuf>) {
+    let Ok(rd) = std::fs::read_dir(dir) else { return };
+    let mut es: Vec<_> = rd.filter_map(|e| e.ok()).map(|e| e.path()).collect();
+    es.sort();
+    for p in es {
+        if p.is_dir() {
+            list_json(&p, acc);
+        } else if p.extension().map(|x| x == "json").unwrap_or(false)
+            && std::fs::metadata(&p).map(|m| m.len() > 0 && m.len() < 6_000_000).unwrap_or(false)
+        {
+            acc.push(p);
+        }
+    }
+}
+
+/// replay one recorded frame at the interpreter level: the host answers and child results are the recorded ones
+fn gen_recorded(f: &RecFrame, max_steps: usize, out: &mut Out, lines: &mut Vec<String>) {
+    let case_id = lines.len();
+    let mut ex = Exec::new();
+    let b = f.params.begin_line();
+    let rep = ex.line(&b);
+    lines.push(b);
+    if !rep.starts_with("ok ") {
+        out.count("real:begin-refused");
+        return;
+    }
+    out.count("real:frame");
+    let (mut steps, mut kids) = (0usize, 0usize);
+    let mut complete = false;
+    loop {
+        let Some(sess) = ex.sess.as_ref() else { break };
+        if sess.dead {
+            break;
+        }
+        if sess.pending_action() {
+            let Some(c) = f.children.get(kids) else {
+                out.count("real:child-missing");
+                break;
+            };
+            kids += 1;
+            let l = format!("i ret {}.r{} {}", case_id, lines.len(), c.token());
+            ex.line(&l);
+            lines.push(l);
+            out.count("line:ret");
+            continue;
+        }
+        if !sess.running() {
+            complete = true;
+            break;
+        }
+        if steps >= max_steps {
+            break;
+        }
+        if danger(&sess.interp) {
+            out.count("case:stopped-before-big-memory");
+            break;
+        }
+        if eof_danger(&sess.interp) {
+            out.count("real:unchecked-eof-instruction");
+            break;
+        }
+        let op = sess.peek_opcode();
+        let resp = if op == Some(0x20) {
+            keccak_resp(sess)
+        } else if op == Some(0xec) && sess.interp.is_eof {
+            eofcreate_resp(sess)
+        } else {
+            match f.steps.get(steps) {
+                Some(r) => r.clone(),
+                None => {
+                    out.count("real:step-missing");
+                    break;
+                }
+            }
+        };
+        let l = format!("i s {}.{} {}", case_id, steps, resp.token());
+        let rep = ex.line(&l);
+        lines.push(l);
+        steps += 1;
+        if let Some(op) = op {
+            out.count(&format!("op:{:02x}", op));
+        }
+        if rep == "panic" {
+            out.count("reply:panic");
+        } else if rep == "oob-code" {
+            out.count("reply:oob-code");
+        }
+    }
+    // the replay has to take the road the real frame took
+    if complete {
+        if let (Some(sess), Some((res, gas))) = (ex.sess.as_ref(), f.end) {
+            if !f.is_create {
+                if sess.interp.instruction_result == res && sess.interp.gas.remaining() == gas && steps == f.steps.len() {
+                    out.count("real:replay-agrees");
+                } else {
+                    out.count("real:replay-diverged");
+                }
+            }
+        }
+    }
+}
+
+/// frames of real transactions (the state-test fixtures shipped with the code)
+fn gen_real(r: &mut Rng, txs: usize, out: &mut Out, lines: &mut Vec<String>) {
+    let root = std::path::Path::new("/repo/tests/pectra_devnet5/state_tests");
+    let mut files = vec![];
+    list_json(root, &mut files);
+    if files.is_empty() {
+        out.count("real:no-vectors");
+        return;
+    }
+    let mut done = 0;
+    let mut tries = 0;
+    while done < txs && tries < 4 * txs {
+        tries += 1;
+        let p = r.pick(&files).clone();
+        let Ok(bytes) = std::fs::read(&p) else { continue };
+        let Some(j) = parse_json(&bytes) else {
+            out.count("real:unparsed-file");
+            continue;
+        };
+        let Some(units) = j.obj() else { continue };
+        if units.is_empty() {
+            continue;
+        }
+        for _ in 0..3 {
+            let (_, unit) = &units[r.below(units.len() as u64) as usize];
+            let Some(posts) = unit.get("post").and_then(|p| p.obj()) else { continue };
+            if posts.is_empty() {
+                continue;
+            }
+            let (sname, ps) = &posts[r.below(posts.len() as u64) as usize];
+            let (Some(spec), Some(ps)) = (spec_by_name(sname), ps.arr()) else { continue };
+            if ps.is_empty() {
+                continue;
+            }
+            let post = &ps[r.below(ps.len() as u64) as usize];
+            let Some(frames) = record_tx(unit, spec, post) else {
+                out.count("real:tx-not-executed");
+                continue;
+            };
+            out.count("real:tx");
+            done += 1;
+            // the outermost frame is recorded last; at most 6 frames of one transaction
+            let n = frames.len();
+            let mut pick: Vec<usize> = (0..n).collect();
+            while pick.len() > 6 {
+                let i = r.below(pick.len() as u64 - 1) as usize;
+                pick.remove(i);
+            }
+            for i in pick {
+                gen_recorded(&frames[i], 300, out, lines);
+            }
+        }
+    }
+}
+
 fn gen(seed: u64, n: usize, out: &mut Out) -> Vec<String> {
     let mut r = Rng::new(seed ^ 0xC25);
     let mut lines = vec![];
@@ -2556,6 +3281,7 @@ fn gen(seed: u64, n: usize, out: &mut Out) -> Vec<String> {
     let thorough = n >= 4000;
     gen_opcode_spec_matrix(&mut r, out, &mut lines, if thorough { 1 } else { 12 });
     gen_truncated_push(&mut r, out, &mut lines, !thorough);
+    gen_real(&mut r, if thorough { 500 } else { 30 }, out, &mut lines);
     // DIFFICULTY under MERGE with `prevrandao = None`: the `unwrap()` of host_env.rs (excluded by `Env` validation)
     for _ in 0..n {
         if r.chance(1, 5) {
